@@ -786,8 +786,13 @@ class GradRuleset(GenericDerivativeRuleset):
     def _(self, o: Expr) -> Expr:
         """Differentiate a spatial_coordinate.
 
-        dx/dx = I.
+        dx/dx = I (on immersed manifolds: the tangential projector J K).
         """
+        domain = extract_unique_domain(o)
+        if domain.topological_dimension < domain.geometric_dimension:
+            # Tangential gradient J K, consistent with grad(f) = rgrad(f) K
+            i, j, k = indices(3)
+            return as_tensor(Jacobian(domain)[i, k] * JacobianInverse(domain)[k, j], (i, j))
         return self._Id
 
     @process.register(CellCoordinate)
